@@ -602,6 +602,25 @@ int EGLPNUM_TYPENAME_ILLlib_chgbnds (
 	int rval = 0;
 	int i;
 
+	if (!lp)
+	{
+		QSlog("EGLPNUM_TYPENAME_ILLlib_chgbnds called without an lp");
+		rval = 1;
+		ILL_CLEANUP;
+	}
+
+	/* validate the whole list first: a rejected call must not apply a prefix */
+	for (i = 0; i < cnt; i++)
+	{
+		if (indx[i] < 0 || indx[i] >= lp->O->nstruct ||
+				(lu[i] != 'L' && lu[i] != 'U' && lu[i] != 'B'))
+		{
+			QSlog("EGLPNUM_TYPENAME_ILLlib_chgbnds called with bad entry %d", i);
+			rval = 1;
+			ILL_CLEANUP;
+		}
+	}
+
 	for (i = 0; i < cnt; i++)
 	{
 		rval = EGLPNUM_TYPENAME_ILLlib_chgbnd (lp, indx[i], lu[i], bnd[i]);
